@@ -10,22 +10,21 @@ import (
 	"github.com/Trisia/randomness"
 )
 
+// 待检测样本
+type job struct {
+	i    int    // 样本序号
+	data []byte // 样本数据
+}
+
 // 工作器
-// jobs: 启动参数
-// source: 随机源
-// n: 读取字节数
+// jobs: 待检测样本
 // round: 检测方式
 // counter: 结果集统计
-func worker(jobs chan int, source io.Reader, n int, round func([]byte) []*randomness.TestResult, counter []int32, distributions [][]float64, wait *sync.WaitGroup) {
-	buf := make([]byte, n, n*2)
-	for i := range jobs {
-		_, err := source.Read(buf)
-		if err != nil {
-			continue
-		}
-		resArr := round(buf)
+func worker(jobs chan job, round func([]byte) []*randomness.TestResult, counter []int32, distributions [][]float64, wait *sync.WaitGroup) {
+	for j := range jobs {
+		resArr := round(j.data)
 		for idx, result := range resArr {
-			distributions[idx][i] = result.Q
+			distributions[idx][j.i] = result.Q
 			if result.Pass {
 				atomic.AddInt32(&counter[idx], 1)
 			}
@@ -35,14 +34,28 @@ func worker(jobs chan int, source io.Reader, n int, round func([]byte) []*random
 }
 
 // 根据处理器情况启动worker
-// return 控制命令管道, 结束型号器
-func bootWorker(source io.Reader, n int, round func([]byte) []*randomness.TestResult, counter []int32, distributions [][]float64) (chan int, *sync.WaitGroup) {
+// return 样本管道, 结束型号器
+func bootWorker(round func([]byte) []*randomness.TestResult, counter []int32, distributions [][]float64) (chan job, *sync.WaitGroup) {
 	var wait sync.WaitGroup
-	jobs := make(chan int)
+	jobs := make(chan job)
 	for i := 0; i < runtime.NumCPU(); i++ {
-		go worker(jobs, source, n, round, counter, distributions, &wait)
+		go worker(jobs, round, counter, distributions, &wait)
 	}
 	return jobs, &wait
+}
+
+// 依次从随机源完整读取 s 组样本(每组 n 字节)并分发给工作器，读取失败时立即返回错误
+func dispatch(source io.Reader, n, s int, jobs chan job, wait *sync.WaitGroup) error {
+	for i := 0; i < s; i++ {
+		buf := make([]byte, n)
+		_, err := io.ReadFull(source, buf)
+		if err != nil {
+			return err
+		}
+		wait.Add(1)
+		jobs <- job{i, buf}
+	}
+	return nil
 }
 
 // FactoryDetectFast 出厂检测，15种检测，每组 10^6比特，分50组
@@ -53,13 +66,13 @@ func FactoryDetectFast(source io.Reader) (bool, error) {
 	n := 1000000 / 8
 	counters := make([]int32, 15)
 	distributions := createDistributions(s, 15)
-	jobs, wg := bootWorker(source, n, Round15, counters, distributions)
-	wg.Add(s)
+	jobs, wg := bootWorker(Round15, counters, distributions)
 	defer close(jobs)
-	for i := 0; i < s; i++ {
-		jobs <- i
-	}
+	err := dispatch(source, n, s, jobs, wg)
 	wg.Wait()
+	if err != nil {
+		return false, err
+	}
 	fmt.Println(counters)
 	for i, itemCnt := range counters {
 		if int(itemCnt) < t {
@@ -83,13 +96,13 @@ func PowerOnDetectFast(source io.Reader) (bool, error) {
 	n := 1000000 / 8
 	counters := make([]int32, 15)
 	distributions := createDistributions(s, 15)
-	jobs, wg := bootWorker(source, n, Round15, counters, distributions)
-	wg.Add(s)
+	jobs, wg := bootWorker(Round15, counters, distributions)
 	defer close(jobs)
-	for i := 0; i < s; i++ {
-		jobs <- i
-	}
+	err := dispatch(source, n, s, jobs, wg)
 	wg.Wait()
+	if err != nil {
+		return false, err
+	}
 	fmt.Println(counters)
 
 	for i, itemCnt := range counters {
@@ -115,13 +128,13 @@ func PeriodDetectFast(source io.Reader) (bool, error) {
 	n := 20000 / 8
 	counters := make([]int32, 15)
 	distributions := createDistributions(s, 15)
-	jobs, wg := bootWorker(source, n, Round15, counters, distributions)
-	wg.Add(s)
+	jobs, wg := bootWorker(Round15, counters, distributions)
 	defer close(jobs)
-	for i := 0; i < s; i++ {
-		jobs <- i
-	}
+	err := dispatch(source, n, s, jobs, wg)
 	wg.Wait()
+	if err != nil {
+		return false, err
+	}
 	fmt.Println(counters)
 	for i, itemCnt := range counters {
 		if int(itemCnt) < t {
